@@ -267,14 +267,24 @@ impl Send {
         // on idle streams and §6.4 says RST_STREAM on idle is a PROTOCOL_ERROR.
         // Keep the queued HEADERS so the stream opens, then send the reset
         // immediately after.
-        if !stream.is_pending_open {
-            // Otherwise, drop any buffered DATA/HEADERS and only send the
-            // reset.
-            //
-            // Note that we don't call `self.recv_err` because we want to enqueue
-            // the reset frame before transitioning the stream inside
-            // `reclaim_all_capacity`.
-            self.prioritize.clear_queue(buffer, stream);
+        let opening_headers = if stream.is_pending_open {
+            stream.pending_send.pop_front(buffer)
+        } else {
+            None
+        };
+
+        // Drop any buffered DATA/HEADERS and only send the reset.
+        //
+        // Note that we don't call `self.recv_err` because we want to enqueue
+        // the reset frame before transitioning the stream inside
+        // `reclaim_all_capacity`.
+        self.prioritize.clear_queue(buffer, stream);
+
+        // Only the HEADERS that open the stream are kept: the body queued
+        // behind them is unsent data like any other and must not delay (or,
+        // when it is waiting for window, replace) the RST_STREAM.
+        if let Some(frame) = opening_headers {
+            stream.pending_send.push_back(buffer, frame);
         }
 
         let frame = frame::Reset::new(stream.id, reason);
